@@ -27,7 +27,7 @@ holds : {
     (notification, observable, observer) : {
         count=int,
         notifications=[
-            (notification name, observable ref, data)
+            (notification name, observable ref, data, observer ref or None)
         ]
     )
 }
@@ -160,7 +160,9 @@ class NotificationCenter(object):
                 if not len(self._identifierRegistry[key]):
                     del self._identifierRegistry[key]
 
-    def postNotification(self, notification, observable, data=None):
+    def postNotification(self, notification, observable, data=None, _observerRef=None):
+        # _observerRef is private: a weakref to the only observer that may
+        # receive this post. It is used when releasing an observer-scoped hold.
         assert notification is not None
         assert observable is not None
         observableRef = weakref.ref(observable)
@@ -183,7 +185,7 @@ class NotificationCenter(object):
                     return
             for key in holdDisabledPossibilities:
                 if key in self._holds:
-                    n = (notification, observableRef, data)
+                    n = (notification, observableRef, data, _observerRef)
                     if n not in self._holds[key]["notifications"]:
                         self._holds[key]["notifications"].append(n)
                     return
@@ -201,6 +203,8 @@ class NotificationCenter(object):
             if key not in self._registry:
                 continue
             for observerRef, methodName in list(self._registry[key].items()):
+                if _observerRef is not None and observerRef != _observerRef:
+                    continue
                 # observer specific hold/disabled
                 # -------------------------------
                 if self._holds or self._disabled:
@@ -228,7 +232,7 @@ class NotificationCenter(object):
                         for holdKey in holdDisabledPossibilities:
                             if holdKey in self._holds:
                                 hold = True
-                                n = (notification, observableRef, data)
+                                n = (notification, observableRef, data, observerRef)
                                 if n not in self._holds[holdKey]["notifications"]:
                                     self._holds[holdKey]["notifications"].append(n)
                                 break
@@ -300,8 +304,8 @@ class NotificationCenter(object):
         if self._holds[key]["count"] == 0:
             notifications = self._holds[key]["notifications"]
             del self._holds[key]
-            for notification, observableRef, data in notifications:
-                self.postNotification(notification, observableRef(), data)
+            for notification, observableRef, data, observerRef in notifications:
+                self.postNotification(notification, observableRef(), data, _observerRef=observerRef)
 
     def areNotificationsHeld(self, observable=None, notification=None, observer=None):
         """
